@@ -152,6 +152,60 @@ var c04Defs = map[string][]string{
 	"rw-rollback-ro":  {"rw-commit", "rw-rollback", "ro"},
 }
 
+// own view, sequentially: every transaction body of <=3 (4) operations over 2 keys on 3 pre-states (nothing, both keys
+// in the memtable, both keys in a table file): inside the transaction every point read and a scan must show the
+// committed state with the transaction's own writes laid over it (checked by the engine driver inside every tx step)
+func c04OwnViewUnit(unit string, env *fw.Env) *fw.Result {
+	res := fw.NewResult()
+	var shard, nsh int
+	fmt.Sscanf(unit, "ownview/%d/%d", &shard, &nsh)
+	maxLen := 3
+	if env.Thorough {
+		maxLen = 4
+	}
+	dir := filepath.Join(fw.Scratch("c04v"), "db")
+	i := 0
+	pres := [][]EngOp{nil, {{Kind: "put", Key: "a"}, {Kind: "put", Key: "b"}}, {{Kind: "put", Key: "a"}, {Kind: "put", Key: "b"}, {Kind: "flush"}, {Kind: "del", Key: "b"}}}
+	for _, pre := range pres {
+		for _, kind := range []string{"txr", "txc"} {
+			for _, body := range c03Bodies(maxLen) {
+				i++
+				if i%nsh != shard {
+					continue
+				}
+				if env.Expired() {
+					res.Exhaustive = false
+					return res
+				}
+				prog := append(append([]EngOp{}, pre...), EngOp{Kind: kind, Sub: body})
+				fw.Progress("c04 ownview " + progString(prog))
+				var problem string
+				out, detail := runEngProg(dir, engCfgs["big"], prog, func(r *EngRun, err error) {
+					if err != nil {
+						problem = "reopen-failed\n" + err.Error()
+						return
+					}
+					problem = r.TxView
+				})
+				res.Evaluations++
+				res.States++
+				res.Transitions++
+				res.Traces++
+				if len(body) >= 2 {
+					res.Nontrivial++
+				}
+				if out != vsched.OK {
+					problem = out.String() + "\n" + detail
+				}
+				if problem != "" {
+					res.Violate(fw.FP("C04", firstLine(problem), progString(prog)), progString(prog)+": "+problem, unit, map[string]any{"kind": "eng-prog", "prog": prog, "problem": problem})
+				}
+			}
+		}
+	}
+	return res
+}
+
 func c04Scenarios() []*explore.Scenario {
 	var out []*explore.Scenario
 	for _, n := range sortedKeys(c04Defs) {
@@ -165,7 +219,7 @@ func init() {
 	fw.Register(&fw.Check{
 		ID:    "C04",
 		Level: "model_checking",
-		Rule: "stateless exploration of the real engine: 2-3 transaction threads from {read a, write a:=read+1, write b, commit | rollback} and {read-only: read a, read b, read a again, scan}; all interleavings up to the deviation bound (2 for 2 threads, 1 for 3 threads; thorough +1) with happens-before caching. Oracle: porcupine strict serializability over transaction-level operations spanning begin..commit (reads with observed values, write set), own writes visible inside the transaction, read-only transactions repeatable and scan = reads; a final read-only transaction closes the history. Non-trivial = executions with a cross-thread conflict",
+		Rule: "stateless exploration of the real engine: 2-3 transaction threads from {read a, write a:=read+1, write b, commit | rollback} and {read-only: read a, read b, read a again, scan}; all interleavings up to the deviation bound (2 for 2 threads, 1 for 3 threads; thorough +1) with happens-before caching. Oracle: porcupine strict serializability over transaction-level operations spanning begin..commit (reads with observed values, write set), own writes visible inside the transaction, read-only transactions repeatable and scan = reads; a final read-only transaction closes the history. Non-trivial = executions with a cross-thread conflict. Own view, sequentially: every transaction body of <=3 (4 thorough) put/delete operations over 2 keys (repeated keys included) on 3 pre-states x {rollback, commit}: inside the transaction every point read of a touched key and a full scan must equal the committed state with the transaction's own operations laid over it, last operation on a key winning",
 		Assumptions: []string{"non-transactional writes are excluded as the statement excludes them", "SC interleavings of visible operations"},
 		Units: func(tier string) []string {
 			var us []string
@@ -179,6 +233,9 @@ func init() {
 				}
 				us = append(us, shardUnits(n, b, 8)...)
 			}
+			for k := 0; k < 4; k++ {
+				us = append(us, fmt.Sprintf("ownview/%d/4", k))
+			}
 			us = append(us, raceUnits(c04Scenarios(), nil)...)
 			return us
 		},
@@ -186,6 +243,9 @@ func init() {
 		Run: func(unit string, env *fw.Env) *fw.Result {
 			if strings.HasPrefix(unit, "race/") {
 				return raceRun("C04", c04Scenarios(), unit, env)
+			}
+			if strings.HasPrefix(unit, "ownview/") {
+				return c04OwnViewUnit(unit, env)
 			}
 			sp := parseSched(unit)
 			for _, sc := range c04Scenarios() {
